@@ -18,6 +18,21 @@ def arg(ctx, call, name, names=None, caller=None):
     return contracts.argument(ctx.pkg, call, name, names, caller)
 
 
+def call(ctx, qual, *args, **kws):
+    """the (canonical) term of a call of package function/class `qual` with these arguments, as engine A would build it"""
+    f = ("glob", qual)
+    a, k = contracts.canonical_args(contracts.package_signature(ctx.pkg, f), tuple(args), tuple(kws.items()))
+    return ("call", f, a, k, 0)
+
+
+def mcall(ctx, recv, name, *args, **kws):
+    """canonical term of a method call recv.name(...)"""
+    f = ("attr", recv, name)
+    cls = None
+    a, k = contracts.canonical_args(contracts.package_signature(ctx.pkg, f, cls), tuple(args), tuple(kws.items()))
+    return ("call", f, a, k, 0)
+
+
 def is_reversed(t, base):
     """t is base[::-1] (possibly already expanded to (base[1], base[0]))"""
     return t == ("sub", base, ("slice", NONE, NONE, const(-1))) or (t[0] in ("tuple", "list") and t[1] == (mk_sub(base, const(1)), mk_sub(base, const(0))))
